@@ -971,7 +971,8 @@ def flag_true_sites(fn, switch_site):
 def _flag_defs(fn, local):
     """assignments that define a bool local, looking through plain copies and negations: returns (local, negated, defs)"""
     neg = False
-    whole = lambda l: [d for d in fn.defs().get(l, []) if d[1] in ("assign", "call")]
+    vol = fn.volatile_locals()
+    whole = lambda l: [] if l in vol else [d for d in fn.defs().get(l, []) if d[1] in ("assign", "call")]
     ds = whole(local)
     for _ in range(4):
         if len(ds) == 1 and ds[0][1] == "assign" and ds[0][2]["rv"]["k"] == "use" and op_place(ds[0][2]["rv"]["op"]) is not None and not op_place(ds[0][2]["rv"]["op"])[1] and not ds[0][2]["lhs"][1]:
@@ -994,31 +995,23 @@ def edge_guards(fn, edge, target, result_local=None, _depth=0):
     that edge and tested later: the lowering of `matches!`, of `let flag = a && b; if flag {..}`, of `if !(a || b)`.
     A later two-way switch on a local f stands for the edge when one of its edges dominates the target and every definition
     of f that can produce that switch value lies behind `edge` (or *is* the value of the test itself, `result_local`)."""
-    if fn.edge_dominates(edge, target):
+    if fn.edge_dominates_plain(edge, target):
         return True
     if _depth > 3:
         return False
-    for site, t in fn.switches():
-        if t["dty"] != "bool":
-            continue
-        p = op_place(t["discr"])
-        if p is None or p[1]:
-            continue
-        local, neg, ds = _flag_defs(fn, p[0])
-        if not ds:
-            continue
+    for site, t, local, neg, ds in fn.flag_switches():
         for val in ("true", "false"):
             e2 = fn.edge_of(site, other_bool(val) if neg else val)
             if not e2 or e2 == edge:
                 continue
-            if not (fn.edge_dominates(e2, target) or (_depth < 2 and edge_guards(fn, e2, target, None, _depth + 3))):
+            if not (fn.edge_dominates_plain(e2, target) or (_depth < 2 and edge_guards(fn, e2, target, None, _depth + 3))):
                 continue
             ok = True
             some = False
             for dsite, kind, st in ds:
                 if kind == "call":
                     # f = some_call(..): behind the edge, or the test's own call (f is true only if the test was)
-                    if fn.edge_dominates(edge, dsite) or (val == "true" and result_local is not None and local == result_local):
+                    if fn.edge_dominates_plain(edge, dsite) or (val == "true" and result_local is not None and local == result_local):
                         some = True
                         continue
                     ok = False
@@ -1027,13 +1020,13 @@ def edge_guards(fn, edge, target, result_local=None, _depth=0):
                 if rv["k"] == "use" and rv["op"].get("k") == "const" and rv["op"].get("val") in ("true", "false"):
                     if rv["op"]["val"] != val:
                         continue                # this definition cannot make the switch take e2
-                    if fn.edge_dominates(edge, dsite):
+                    if fn.edge_dominates_plain(edge, dsite):
                         some = True
                         continue
                     ok = False
                     break
                 # a computed value
-                if fn.edge_dominates(edge, dsite):
+                if fn.edge_dominates_plain(edge, dsite):
                     some = True
                     continue
                 src = op_place(rv["op"]) if rv["k"] == "use" else None
